@@ -415,4 +415,279 @@ theorem labelIds_lowerL (top : Option Nat) (ss : List WStmt) :
     · exact Or.inl (labelIds_lowerS top s i hi)
     · exact Or.inr (ih i hi)
 
+/-! ## Syntactic facts -/
+
+theorem jumpsToL_append (b : Bool) (j : Nat) (x y : List WStmt) :
+    jumpsToL b j (x ++ y) = (jumpsToL b j x || jumpsToL b j y) := by
+  induction x with
+  | nil => simp [jumpsToL]
+  | cons s r ih => simp [jumpsToL, ih, Bool.or_assoc]
+
+theorem deepJumpsToL_append (b : Bool) (j : Nat) (x y : List WStmt) :
+    deepJumpsToL b j (x ++ y) = (deepJumpsToL b j x || deepJumpsToL b j y) := by
+  induction x with
+  | nil => simp [deepJumpsToL]
+  | cons s r ih => simp [deepJumpsToL, ih, Bool.or_assoc]
+
+theorem lastIsBreakTo_split {id : Nat} {body : List WStmt} (h : lastIsBreakTo id body = true) :
+    ∃ b', body = b' ++ [.jump true id] := by
+  induction body with
+  | nil => simp [lastIsBreakTo] at h
+  | cons s r ih =>
+    cases r with
+    | nil =>
+      cases s with
+      | jump b j =>
+        cases b with
+        | true => simp only [lastIsBreakTo, beq_iff_eq] at h; exact ⟨[], by simp [h]⟩
+        | false => simp [lastIsBreakTo] at h
+      | _ => simp [lastIsBreakTo] at h
+    | cons s2 r2 =>
+      simp only [lastIsBreakTo] at h
+      obtain ⟨b', hb'⟩ := ih h
+      exact ⟨s :: b', by simp [hb']⟩
+
+theorem lowerL_break_last (id : Nat) (b' : List WStmt) :
+    lowerL (some id) (b' ++ [.jump true id]) = lowerL (some id) b' ++ [.brk] := by
+  rw [lowerL_append]; simp [lowerL, lowerS]
+
+/-- the trivial-loop body of the model (`(lowerL … body).dropLast`) is the
+body that writeStatementWhile writes (`body[:len(body)-1]`, lowered) -/
+theorem lowerL_dropLast (id : Nat) (b' : List WStmt) :
+    (lowerL (some id) (b' ++ [.jump true id])).dropLast = lowerL (some id) b' := by
+  rw [lowerL_break_last]; simp
+
+/-! ## Wuffs side -/
+
+/-- a jump that leaves a statement (list) occurs in it -/
+theorem jmp_occurs : ∀ n : Nat,
+    (∀ (s : WStmt) (st : σ) (b : Bool) (j : Nat) (st' : σ),
+      execWS I n s st = some (.jmp b j st') → jumpsToS b j s = true) ∧
+    (∀ (ss : List WStmt) (st : σ) (b : Bool) (j : Nat) (st' : σ),
+      execWL I n ss st = some (.jmp b j st') → jumpsToL b j ss = true) := by
+  intro n
+  induction n with
+  | zero =>
+    constructor
+    · intro s st b j st' h; simp at h
+    · intro ss st b j st' h
+      cases ss with
+      | nil => simp at h
+      | cons s r => simp at h
+  | succ n ih =>
+    obtain ⟨ihS, ihL⟩ := ih
+    constructor
+    · intro s st b j st' h
+      cases s with
+      | act a => rw [execWS_act] at h; cases hx : I.act a st <;> simp [hx] at h
+      | ret e => rw [execWS_ret] at h; cases hx : I.retv e st <;> simp [hx] at h
+      | jump b2 j2 =>
+        rw [execWS_jump] at h
+        simp only [Option.some.injEq, WOut.jmp.injEq] at h
+        obtain ⟨rfl, rfl, rfl⟩ := h
+        simp [jumpsToS]
+      | ite c el t e =>
+        rw [execWS_ite] at h
+        cases hc : I.cond c st with
+        | none => simp [hc] at h
+        | some bv =>
+          cases bv <;> simp only [hc] at h <;> have := ihL _ _ _ _ _ h <;> simp [jumpsToS, this]
+      | ifTrue t =>
+        rw [execWS_ifTrue] at h
+        have := ihL _ _ _ _ _ h
+        simp [jumpsToS, this]
+      | «while» id c body =>
+        rw [execWS_while] at h
+        cases hc : I.condO c st with
+        | none => simp [hc] at h
+        | some bv =>
+          cases bv with
+          | false => simp [hc] at h
+          | true =>
+            simp only [hc] at h
+            cases hb : execWL I n body st with
+            | none => simp [hb] at h
+            | some x =>
+              simp only [hb, Option.bind_some] at h
+              cases x with
+              | next st1 => simp only [whileAfterW] at h; exact ihS _ _ _ _ _ h
+              | ret v st1 => simp [whileAfterW] at h
+              | jmp b2 j2 st1 =>
+                simp only [whileAfterW] at h
+                by_cases e : j2 = id
+                · simp only [e, if_true] at h
+                  cases b2 with
+                  | true => simp at h
+                  | false => simp only [Bool.false_eq_true, if_false] at h; exact ihS _ _ _ _ _ h
+                · simp only [e, if_false, Option.some.injEq, WOut.jmp.injEq] at h
+                  obtain ⟨rfl, rfl, rfl⟩ := h
+                  have := ihL _ _ _ _ _ hb
+                  simpa [jumpsToS] using this
+    · intro ss st b j st' h
+      cases ss with
+      | nil => simp at h
+      | cons s r =>
+        rw [execWL_cons] at h
+        cases hs : execWS I n s st with
+        | none => simp [hs] at h
+        | some x =>
+          simp only [hs, Option.bind_some] at h
+          cases x with
+          | next st1 =>
+            simp only [seqAfterW] at h
+            have := ihL _ _ _ _ _ h
+            simp [jumpsToL, this]
+          | ret v st1 => simp [seqAfterW] at h
+          | jmp b2 j2 st1 =>
+            simp only [seqAfterW, Option.some.injEq, WOut.jmp.injEq] at h
+            obtain ⟨rfl, rfl, rfl⟩ := h
+            have := ihS _ _ _ _ _ hs
+            simp [jumpsToL, this]
+
+/-- a jump that leaves a well-formed statement (list) targets an enclosing loop -/
+theorem jmp_scoped : ∀ n : Nat,
+    (∀ (encl : List Nat) (s : WStmt) (st : σ) (b : Bool) (j : Nat) (st' : σ), wfS encl s = true →
+      execWS I n s st = some (.jmp b j st') → j ∈ encl) ∧
+    (∀ (encl : List Nat) (ss : List WStmt) (st : σ) (b : Bool) (j : Nat) (st' : σ), wfL encl ss = true →
+      execWL I n ss st = some (.jmp b j st') → j ∈ encl) := by
+  intro n
+  induction n with
+  | zero =>
+    constructor
+    · intro encl s st b j st' _ h; simp at h
+    · intro encl ss st b j st' _ h
+      cases ss with
+      | nil => simp at h
+      | cons s r => simp at h
+  | succ n ih =>
+    obtain ⟨ihS, ihL⟩ := ih
+    constructor
+    · intro encl s st b j st' hwf h
+      cases s with
+      | act a => rw [execWS_act] at h; cases hx : I.act a st <;> simp [hx] at h
+      | ret e => rw [execWS_ret] at h; cases hx : I.retv e st <;> simp [hx] at h
+      | jump b2 j2 =>
+        rw [execWS_jump] at h
+        simp only [Option.some.injEq, WOut.jmp.injEq] at h
+        obtain ⟨rfl, rfl, rfl⟩ := h
+        simpa [wfS] using hwf
+      | ite c el t e =>
+        simp only [wfS, Bool.and_eq_true] at hwf
+        rw [execWS_ite] at h
+        cases hc : I.cond c st with
+        | none => simp [hc] at h
+        | some bv =>
+          cases bv <;> simp only [hc] at h
+          · exact ihL _ _ _ _ _ _ hwf.2 h
+          · exact ihL _ _ _ _ _ _ hwf.1 h
+      | ifTrue t =>
+        simp only [wfS] at hwf
+        rw [execWS_ifTrue] at h
+        exact ihL _ _ _ _ _ _ hwf h
+      | «while» id c body =>
+        have hwf' := hwf
+        simp only [wfS, Bool.and_eq_true] at hwf'
+        rw [execWS_while] at h
+        cases hc : I.condO c st with
+        | none => simp [hc] at h
+        | some bv =>
+          cases bv with
+          | false => simp [hc] at h
+          | true =>
+            simp only [hc] at h
+            cases hb : execWL I n body st with
+            | none => simp [hb] at h
+            | some x =>
+              simp only [hb, Option.bind_some] at h
+              cases x with
+              | next st1 => simp only [whileAfterW] at h; exact ihS _ _ _ _ _ _ hwf h
+              | ret v st1 => simp [whileAfterW] at h
+              | jmp b2 j2 st1 =>
+                simp only [whileAfterW] at h
+                by_cases e : j2 = id
+                · simp only [e, if_true] at h
+                  cases b2 with
+                  | true => simp at h
+                  | false => simp only [Bool.false_eq_true, if_false] at h; exact ihS _ _ _ _ _ _ hwf h
+                · simp only [e, if_false, Option.some.injEq, WOut.jmp.injEq] at h
+                  obtain ⟨rfl, rfl, rfl⟩ := h
+                  have := ihL _ _ _ _ _ _ hwf'.2 hb
+                  simp only [List.mem_cons] at this
+                  rcases this with this | this
+                  · exact absurd this e
+                  · exact this
+    · intro encl ss st b j st' hwf h
+      cases ss with
+      | nil => simp at h
+      | cons s r =>
+        simp only [wfL, Bool.and_eq_true] at hwf
+        rw [execWL_cons] at h
+        cases hs : execWS I n s st with
+        | none => simp [hs] at h
+        | some x =>
+          simp only [hs, Option.bind_some] at h
+          cases x with
+          | next st1 => simp only [seqAfterW] at h; exact ihL _ _ _ _ _ _ hwf.1.2 h
+          | ret v st1 => simp [seqAfterW] at h
+          | jmp b2 j2 st1 =>
+            simp only [seqAfterW, Option.some.injEq, WOut.jmp.injEq] at h
+            obtain ⟨rfl, rfl, rfl⟩ := h
+            exact ihS _ _ _ _ _ _ hwf.1.1 hs
+
+/-- running `b' ++ [break]`: run `b'`; if it completes, the `break` happens -/
+theorem execWL_append_break (id : Nat) : ∀ (b' : List WStmt) (n : Nat) (st : σ) (out : WOut σ V),
+    execWL I n (b' ++ [.jump true id]) st = some out →
+    ∃ out', execWL I n b' st = some out' ∧
+      out = (match out' with | .next st' => .jmp true id st' | o => o) := by
+  intro b'
+  induction b' with
+  | nil =>
+    intro n st out h
+    cases n with
+    | zero => simp at h
+    | succ n =>
+      simp only [List.nil_append] at h
+      rw [execWL_cons] at h
+      cases n with
+      | zero => simp at h
+      | succ n =>
+        rw [execWS_jump] at h
+        simp only [Option.bind_some, seqAfterW, Option.some.injEq] at h
+        exact ⟨.next st, by simp, h.symm⟩
+  | cons s r ih =>
+    intro n st out h
+    cases n with
+    | zero => simp at h
+    | succ n =>
+      simp only [List.cons_append] at h
+      rw [execWL_cons] at h ⊢
+      cases hs : execWS I n s st with
+      | none => simp [hs] at h
+      | some x =>
+        simp only [hs, Option.bind_some] at h ⊢
+        cases x with
+        | next st1 => simp only [seqAfterW] at h ⊢; exact ih n st1 out h
+        | ret v st1 => simp only [seqAfterW, Option.some.injEq] at h ⊢; exact ⟨_, rfl, h.symm⟩
+        | jmp b2 j2 st1 => simp only [seqAfterW, Option.some.injEq] at h ⊢; exact ⟨_, rfl, h.symm⟩
+
+/-- the loops of a well-formed list are not among the enclosing ones -/
+theorem wfL_topLoops {encl : List Nat} {ss : List WStmt} (h : wfL encl ss = true) :
+    ∀ i ∈ topLoopsL ss, i ∉ encl := by
+  induction ss with
+  | nil => intro i hi; simp [topLoopsL] at hi
+  | cons s r ih =>
+    simp only [wfL, Bool.and_eq_true] at h
+    intro i hi
+    simp only [topLoopsL, List.mem_append] at hi
+    rcases hi with hi | hi
+    · cases s with
+      | «while» id c body =>
+        simp only [topLoopsS, List.mem_singleton] at hi
+        subst hi
+        have := h.1.1
+        simp only [wfS, Bool.and_eq_true, Bool.not_eq_true', List.contains_eq_mem, decide_eq_false_iff_not] at this
+        exact this.1
+      | _ => simp [topLoopsS] at hi
+    · exact ih h.1.2 i hi
+
 end WuffsVerif.CStmt
